@@ -1,7 +1,9 @@
 """C11 — tag pool + mux transport core.
 
-The real scales.thriftmux.sink.SocketTransportSink (TagPool, _tag_map, _ReleaseTag, _HandleTimeout,
-_OnTimeout, send and receive loops) runs on a fake socket (harness/fakenet.py) whose peer is the generator:
+The real scales.thriftmux.sink.SocketTransportSink and the real scales.kafka.sink.KafkaTransportSink (script
+key 'flavour'; TagPool, _tag_map, _ReleaseTag, _HandleTimeout, _OnTimeout, send and receive loops; for Kafka the
+tag is decoded from the correlation id of the request headers it writes, and the peer replies with arbitrary
+correlation ids) run on a fake socket (harness/fakenet.py) whose peer is the generator:
 replies in any order, duplicated, for unknown tags, on tags 0 and 1 with every message type, before the request
 was even written; deadline events fired before and after transmission; pings; close + new connection.
 
@@ -50,8 +52,8 @@ JUNK = 99999999          # canonical form of a non-integer "tag" found in the po
 TRUSTED = ['fake socket harness/fakenet.py (atomic, non-yielding write; peer bytes fed by the generator)',
            'logging subclasses of gevent.queue.Queue (send-step boundaries), scales.observable.Observable '
            '(timeout callback boundaries) and of the transport sink (_ProcessReply boundary) substituted at run time']
-ASSUMPTIONS = ['Kafka transport (scales/kafka/sink.py) shares MuxSocketTransportSink/TagPool unchanged; it is not '
-               'driven separately (its _BuildHeader raises on every request until F10 is repaired)',
+ASSUMPTIONS = ['both transport sinks built on MuxSocketTransportSink are driven: ThriftMux SocketTransportSink and '
+               'KafkaTransportSink (about a third of the scripts; Kafka replies are fed as size + correlation id)',
                'Close/re-open is issued at quiescent points only (closing races belong to C08)',
                'virtual time never advances inside a script, so the 30-40 s ping loop and the 5 s ping time-out do '
                'not fire; pings are issued by the generator through _SendPingMessage']
@@ -67,6 +69,8 @@ MTYPES = [-2, -2, -2, -128, 127, -65, -66, 2, 66, 65, 0, 1, -1, 68, -68, 64, -64
 def gen_script(rng, tier):
     small = rng.random() < 0.25
     mx = rng.choice([3, 4, 5, 6, 8]) if small else None
+    flavour = 'kafka' if rng.random() < 0.35 else 'thriftmux'
+    big = [1 << 31, (1 << 32) - 1, (1 << 31) - 1] if flavour == 'kafka' else []
     n = rng.choice([6, 12, 20, 30, 45] if tier != 'thorough' else [6, 12, 20, 30, 45, 80, 150])
     p_drain = rng.choice([0.1, 0.25, 0.5])
     adversarial = rng.random() < 0.6
@@ -91,7 +95,7 @@ def gen_script(rng, tier):
             ops.append(['ans', k, mt])
         elif x < 0.80 and adversarial:
             tag = rng.choice([0, 1, 1, 1, 2, 3, 4, 5, 6, 7, rng.randrange(2, 40), rng.randrange(0, 1 << 24),
-                              REAL_MAX, REAL_MAX - 1])
+                              REAL_MAX, REAL_MAX - 1] + big)
             mt = rng.choice(MTYPES) if rng.random() < 0.8 else rng.randrange(-128, 128)
             ops.append(['peer', mt, tag])
         elif x < 0.83:
@@ -112,7 +116,7 @@ def gen_script(rng, tier):
             ops.append(['D'])
         if rng.random() < p_drain:
             ops.append(['D'])
-    return {'max': mx, 'ops': ops}
+    return {'max': mx, 'flavour': flavour, 'ops': ops}
 
 
 def gen_script_focus(rng, tier, focus):
@@ -120,6 +124,7 @@ def gen_script_focus(rng, tier, focus):
     on foreign tags (C02, multiplexed hop); `timeouts` — deadline events before and after transmission, the
     Tdiscarded that follows, answers racing the time-out callback (C12, multiplexed hop)"""
     mx = rng.choice([None, None, None, 6, 8])
+    flavour = 'kafka' if rng.random() < 0.35 else 'thriftmux'
     ops = []
     nreq = 0
     pending = []      # rids with an unfired event
@@ -200,7 +205,7 @@ def gen_script_focus(rng, tier, focus):
         if rng.random() < 0.08:
             ops.append(['reopen'])
             nreq, pending, live = 0, [], []
-    return {'max': mx, 'ops': ops}
+    return {'max': mx, 'flavour': flavour, 'ops': ops}
 
 
 def exhaustive(tier, shard, shards):
@@ -213,9 +218,10 @@ def exhaustive(tier, shard, shards):
     def rec(prefix, nreq, pending):
         if prefix:
             for mx in (None, 4):
-                k[0] += 1
-                if k[0] % shards == shard:
-                    yield {'max': mx, 'ops': list(prefix)}
+                for flavour in ('thriftmux', 'kafka'):
+                    k[0] += 1
+                    if k[0] % shards == shard:
+                        yield {'max': mx, 'flavour': flavour, 'ops': list(prefix)}
         if len(prefix) >= nmax:
             return
         for kind in ('noev', 'ev', 'pre'):
@@ -260,10 +266,10 @@ def shrink(script):
                         o = [o[0], o[1] - 1] + o[2:]
                 new.append(o)
             rest = new
-        yield {'max': script['max'], 'ops': rest}
+        yield dict(script, ops=rest)
     if script['max'] is None:
         return
-    yield {'max': None, 'ops': ops}
+    yield dict(script, max=None)
 
 
 # ------------------------------------------------------------------ running the real code
@@ -305,6 +311,7 @@ def run_script(script):
     import fakenet
     _install()
     from scales.thriftmux.sink import SocketTransportSink
+    from scales.kafka.sink import KafkaTransportSink
     from scales.mux.sink import Tag, TagPool
     from scales.message import MethodCallMessage, Deadline
     from scales.observable import Observable
@@ -335,6 +342,7 @@ def run_script(script):
 
     steps, recs, tags = [], [], set()
     mx = script.get('max') or REAL_MAX
+    kafka = script.get('flavour') == 'kafka'
 
     class Rec(object):
         active = False
@@ -370,13 +378,42 @@ def run_script(script):
                     typ, = unpack('!b', data[0:1])
                     emit(['process', typ, int.from_bytes(data[1:4], 'big')])
 
+    class LoggedKafkaSink(KafkaTransportSink):
+        def _ProcessReply(self, stream):
+            data = stream.getvalue()
+            try:
+                return KafkaTransportSink._ProcessReply(self, stream)
+            finally:
+                if self is rec.sink and len(data) >= 4:
+                    # the correlation id as an unsigned number (the code reads it signed: a value >= 2^31
+                    # is a negative id there, unknown to the tag map either way)
+                    emit(['process', 0, int.from_bytes(data[0:4], 'big')])
+
     def conn():
         return srv.conns[-1]
+
+    def feed_frame(mt, tag):
+        if kafka:
+            conn().feed(pack('!iI', 4, tag & 0xffffffff))
+        else:
+            conn().feed(pack('!ibBBB', 4, mt, tag >> 16 & 255, tag >> 8 & 255, tag & 255))
 
     def frames_written():
         c = conn()
         out = []
         for _, data in c.written[rec.wpos:]:
+            if kafka:
+                # size, api key, api version, correlation id (= the tag), client id, then the body
+                if len(data) < 14:
+                    out.append(('other', 0, len(data)))
+                    continue
+                sz, apikey, apiver, corr, clen = unpack('!ihhih', data[:14])
+                body = data[14 + max(clen, 0):]
+                if apikey == 0 and apiver == 0 and sz == len(data) - 4 and len(body) == 4:
+                    out.append(('req', corr & 0xffffffff, unpack('!i', body)[0]))
+                else:
+                    out.append(('other', corr & 0xffffffff, apikey & 0xff))
+                continue
             if len(data) < 8:
                 out.append(('other', 0, len(data)))
                 continue
@@ -452,7 +489,7 @@ def run_script(script):
             rec.sink.Close()
             rt.drain()
         peer['auto_pong'] = True
-        sink = LoggedSink(fakenet.FakeScalesSocket('h1', 9001), 'svc')
+        sink = (LoggedKafkaSink if kafka else LoggedSink)(fakenet.FakeScalesSocket('h1', 9001), 'svc')
         rec.sink = sink
         sink.Open()
         rt.drain()
@@ -476,7 +513,7 @@ def run_script(script):
                 pool = sink._tag_pool
                 guess = _canon(next(iter(pool._set)) if pool._set else pool._next + 1)
                 if guess < (1 << 24):
-                    conn().feed(pack('!ibBBB', 4, op[2], guess >> 16 & 255, guess >> 8 & 255, guess & 255))
+                    feed_frame(op[2], guess)
                     gevent.sleep(0)
                 kind = 'req'
             if kind == 'req':
@@ -493,7 +530,8 @@ def run_script(script):
                 free_before = len(sink._tag_pool._set)
                 tag = None
                 try:
-                    sink.AsyncProcessRequest(Stack(sink, rid), msg, stream, {TransportHeaders.MessageType: 2})
+                    sink.AsyncProcessRequest(Stack(sink, rid), msg, stream,
+                                             {TransportHeaders.MessageType: 0 if kafka else 2})
                     tag = _canon(msg.properties.get(Tag.KEY))
                     res = 'ok'
                 except Exception as ex:
@@ -515,9 +553,9 @@ def run_script(script):
                     tag = reqs[k]['tag']
                 else:
                     mt, tag = op[1], op[2]
-                conn().feed(pack('!ibBBB', 4, mt, tag >> 16 & 255, tag >> 8 & 255, tag & 255))
+                feed_frame(mt, tag)
             elif kind == 'ping':
-                if getattr(sink, '_ping_ar', None) is None:
+                if not kafka and getattr(sink, '_ping_ar', None) is None:
                     sink._SendPingMessage()
                     emit(['ping'])
             elif kind == 'reopen':
@@ -556,7 +594,8 @@ def run_script(script):
         tags.add('hub-error')
         steps.append(['send', vfmt(['raised', 0, [], [], [], [], 0, 0])])
     _tag_case(recs, tags)
-    return {'comp': COMPONENT, 'cfg': str(mx), 'steps': steps, 'tags': sorted(tags)}
+    tags.add('kafka' if kafka else 'thriftmux')
+    return {'comp': COMPONENT, 'cfg': ('%d kafka' % mx) if kafka else str(mx), 'steps': steps, 'tags': sorted(tags)}
 
 
 def _tag_case(recs, tags):
